@@ -790,8 +790,14 @@ MC_HARNESS(fe_batch) {
   log.yield_in_body = P("yield", 0) != 0;
   long calls = 0, fails = 0;
   std::string first;
+  // nest=1: the calls are made from inside a task of the same pool (the caller is a pool worker with a ring index,
+  // which the chunk assignment of the random-access path may look at)
+  const bool nest = P("nest", 0) != 0;
+  mc::Shared<int> batch_done{0};
   {
     dispenso::ThreadPool pool((size_t)N);
+    auto run_all = [&] {
+    log.caller_tid = mc_self_id();
     dispenso::TaskSet ts(pool);
     for (auto& c : conts)
       for (unsigned long cnt : cnts)
@@ -809,6 +815,15 @@ MC_HARNESS(fe_batch) {
             if (log.peak.get() >= 1) mc::cover("applied");
             if (log.peak.get() >= 2) mc::cover("concurrent_applications");
           }
+    batch_done.set(1);
+    };
+    if (nest && N > 0) {
+      pool.schedule(run_all, dispenso::ForceQueuingTag());
+      mc::block_until([&] { return batch_done.get() == 1; });
+      mc::cover("called_from_pool_thread");
+    } else {
+      run_all();
+    }
   }
   MC_CHECK(fails == 0, "C15: %ld of %ld for_each calls violated the property; first: %s", fails, calls, first.c_str());
   if (log.on_worker.get()) mc::cover("applied_on_worker");
